@@ -747,6 +747,11 @@ class Interp(object):
                 if atom[0] not in ('in', 'sym'):
                     st.add_fact(l)
             else:
+                # infeasible if the negation is already entailed
+                neg = l.scale(-1)
+                neg.k += 1
+                if st.facts and st.entails_le0(neg):
+                    return False
                 st.add_fact(l)
             return True
         # arbitrary integer term: truth means != 0
